@@ -9,9 +9,16 @@ global size_of usize == 8;
 //@extract consts src/callbacks/csvdump.rs
 //@end
 
-#[allow(unused_macros)] macro_rules! info  { ($($t:tt)*) => { () } }
+#[allow(unused_macros)] macro_rules! info  {
+    (target: $t:expr, $f:expr, $a:expr, $b:expr, $c:expr, $d:expr, $e:expr) => { crate::log_summary($f, $a, $b, $c, $d, $e) };
+    ($($t:tt)*) => { () }
+}
 #[allow(unused_macros)] macro_rules! debug { ($($t:tt)*) => { () } }
-#[allow(unused_macros)] macro_rules! format { ($fmt:expr, $a:expr) => { crate::fmt_hash($a) } }
+#[allow(unused_macros)] macro_rules! format {
+    ("{}", $a:expr) => { crate::fmt_hash($a) };
+    ("{}.csv.tmp", $a:expr) => { crate::fmt_tmp("{}.csv.tmp", $a) };
+    ($fmt:expr, $a:expr, $b:expr, $c:expr) => { crate::fmt_name($fmt, $a, $b, $c) };
+}
 
 pub struct Error;
 pub type Result<T> = core::result::Result<T, Error>;
@@ -69,8 +76,31 @@ pub open spec fn sum_out_counts(txs: Seq<Hashed<EvaluatedTx>>, n: int) -> int
     decreases n
 { if n <= 0 { 0 } else { sum_out_counts(txs, n - 1) + txs[n - 1].value.out_count.value } }
 
+/// the completion summary (info!): the five values it is given, in order (its text is an uninterpreted function of them)
+pub uninterp spec fn summary_logged(start: u64, last: u64, txs: u64, ins: u64, outs: u64) -> bool;
+#[verifier::external_body]
+pub fn log_summary(f: &str, start: u64, last: u64, txs: u64, ins: u64, outs: u64)
+    ensures summary_logged(start, last, txs, ins, outs),
+{ unimplemented!() }
+pub struct FileName { pub s: String }
+#[verifier::external_body]
+pub fn fmt_name(f: &str, a: &str, b: u64, c: u64) -> (r: FileName) { unimplemented!() }
+#[verifier::external_body]
+pub fn fmt_tmp(f: &str, a: &str) -> (r: FileName) { unimplemented!() }
+impl PathBuf {
+    #[verifier::external_body] pub fn as_path(&self) -> (r: &PathBuf) { unimplemented!() }
+    #[verifier::external_body] pub fn join(&self, t: FileName) -> (r: PathBuf) { unimplemented!() }
+}
+pub mod fs {
+    use vstd::prelude::*;
+    verus! {
+    #[verifier::external_body] pub fn rename(a: crate::PathBuf, b: crate::PathBuf) -> (r: crate::Result<()>) { unimplemented!() }
+    }
+}
+
 pub trait Callback {
     spec fn on_block_pre(&self, block: &Block) -> bool;
+    fn on_complete(&mut self, block_height: u64) -> (r: Result<()>);
     fn on_start(&mut self, block_height: u64) -> (r: Result<()>);
     fn on_block(&mut self, block: &Block, block_height: u64) -> (r: Result<()>)
         requires old(self).on_block_pre(block);
@@ -109,6 +139,17 @@ impl Callback for CsvDump {
             final(self).tx_count == old(self).tx_count, final(self).in_count == old(self).in_count, final(self).out_count == old(self).out_count,
             final(self).block_writer == old(self).block_writer, final(self).tx_writer == old(self).tx_writer,
             final(self).txin_writer == old(self).txin_writer, final(self).txout_writer == old(self).txout_writer,
+//@end
+//@extract fn src/callbacks/csvdump.rs :: impl Callback for CsvDump :: on_complete
+//@vis none
+//@idiom I30 loop 1
+//@spec
+        ensures
+            //# C01:totals_printed_on_completion_are_the_three_counters
+            r is Ok ==> summary_logged(old(self).start_height, block_height, old(self).tx_count, old(self).in_count, old(self).out_count),
+            final(self).tx_count == old(self).tx_count, final(self).in_count == old(self).in_count, final(self).out_count == old(self).out_count,
+//@loop 1
+            invariant self.tx_count == old(self).tx_count, self.in_count == old(self).in_count, self.out_count == old(self).out_count, self.start_height == old(self).start_height,
 //@end
 //@extract fn src/callbacks/csvdump.rs :: impl Callback for CsvDump :: on_block
 //@vis none
